@@ -6,6 +6,7 @@ import (
 	"verif/checker/internal/core"
 	"verif/checker/internal/codec"
 	"verif/checker/internal/lib"
+	"verif/checker/internal/refl"
 	"verif/checker/internal/tmpl"
 )
 
@@ -50,7 +51,7 @@ func reg(p *Prop) {
 type E = []func(*core.Ctx)
 
 func init() {
-	for _, id := range []string{"C05", "C06", "C07", "C08", "C09", "C10", "C11", "C19"} {
+	for _, id := range []string{"C05", "C07", "C08", "C10", "C11", "C19"} {
 		NotYet[id] = "engine for this property is designed (DESIGN.md section 4) but not yet armed in this commit; not claimed until its check runs clean on the pinned tree"
 	}
 
@@ -58,13 +59,15 @@ func init() {
 		ID:        "C15",
 		Technique: "abstract interpretation on a bit-length domain (exhaustive over classes) + zone/difference-bound analysis of Skip on SSA",
 		DesignRef: "DESIGN.md 3.13, 4 C15",
-		LevelText: "Sov/Soz are evaluated abstractly for every bit-length class of uint64 (65 / 128 classes; every operation they use is exact on the domain, so this is a complete case analysis of all 2^64 inputs) against protowire.SizeVarint/EncodeZigZag computed by the checker; EncodeVarint is executed abstractly per class: stores land exactly on [offset-n, offset), ascending, continuation forms, result offset-n. Any operation outside the exact table makes the obligation undecided (reported).",
-		Engines:   E{lib.RunVarint},
+		LevelText: "Sov/Soz are evaluated abstractly for every bit-length class of uint64 (65 / 128 classes; every operation they use is exact on the domain, so this is a complete case analysis of all 2^64 inputs) against protowire.SizeVarint/EncodeZigZag computed by the checker; EncodeVarint is executed abstractly per class: stores land exactly on [offset-n, offset), ascending, continuation forms, result offset-n. Any operation outside the exact table makes the obligation undecided (reported). Skip is matched statement by statement against its guarded-reader structure: every index expression sits behind the cursor>=l guard, every addition to the cursor is followed by the cursor<0 overflow check, every record consumes >= 1 byte, and the per-wire-type advance table (varint / 8 / 4 / length / group depth +-1 / error) and the depth-0 return are exact.",
+		Engines:   E{lib.RunVarint, codec.RunSkip},
 		RulePrefixes: []string{"L.sov", "L.soz", "L.encvarint", "L.skip", "L.anchor"},
 		Floors: []core.Floor{
 			{Rule: "L.sov", Min: 65, Why: "65 bit-length classes of uint64"},
 			{Rule: "L.soz", Min: 128, Why: "2 signs x 64 magnitude lengths"},
 			{Rule: "L.encvarint", Min: 65, Why: "65 bit-length classes"},
+			{Rule: "L.skip.table", Min: 8, Why: "6 wire types + default + result"},
+			{Rule: "L.skip.nopanic", Min: 2, Why: "overflow check + index sites"},
 		},
 		Explanation: "Sov/Soz: exhaustive abstract evaluation on the bit-length domain (every operation used is exact on it) against protowire.SizeVarint / EncodeZigZag evaluated by the checker on class representatives; EncodeVarint: abstract execution per class (stores at exactly [off-n,off), ascending, continuation forms, result off-n).",
 	})
@@ -234,5 +237,39 @@ func init() {
 			{Rule: "OPTS.discard", Min: 1, Why: "UnmarshalInputToOptions"},
 		},
 		Explanation: "UNK rules; see level text.",
+	})
+
+	reg(&Prop{
+		ID:        "C06",
+		Technique: "guarded-macro typestate on every decode arm (each buffer access / cursor update must be one of the verified guarded forms that keep 0 <= cursor <= len), structural proof of runtime.Skip, option-mapping rule for the recursion budget, nil-store and nil-receiver rules",
+		DesignRef: "DESIGN.md 3.7, 3.8, 4 C06",
+		LevelText: "For every arm of every generated decoder (checked-in and regenerated corpus): every access to the input and every cursor update is one of a closed set of guarded forms whose guards are required verbatim and in order (varint reader with cursor>=l and shift>=64 guards; fixed read behind (cursor+k)>l; payload slice only after len<0, end<0 (overflow) and end>l; Skip block with err, negative/overflow and bound guards; last-element access only right after an append); each form preserves 0 <= cursor <= l, so no index or slice expression can be out of range for any byte string; every loop consumes >= 1 byte per iteration (tag reader first; Skip returns >= 1, decided on Skip itself), so decoding terminates; no panic call or unchecked assertion exists in a decoder; allocations are sized by guarded ints bounded by the remaining input (capacity hints <= payload length). The nesting budget must be carried: OPTS.depth demands RecursionLimit derived from input.Depth (open finding F3). Accepted messages are safe to read: no nil message pointer is planted (DEC.mapdefault, open finding F6) and read accessors do not dereference nil (NIL.recv, open finding F7). Not decided: stack depth in bytes, wall-clock or allocator behaviour as quantities.",
+		Engines:      E{codec.RunDec, codec.RunSkip, codec.RunOpts, refl.RunNil},
+		RulePrefixes: []string{"BND", "DEC.walk", "DEC.frame", "DEC.mapdefault", "OPTS.depth", "L.skip", "NIL.recv", "NIL.wrap", "G.model", "G.anchor", "GEN.build"},
+		Floors: []core.Floor{
+			{Rule: "BND.macro", Min: 400, Why: "decode arms"},
+			{Rule: "BND.nopanic", Min: 50, Why: "message types"},
+			{Rule: "DEC.frame", Min: 50, Why: "message types"},
+			{Rule: "L.skip.table", Min: 8, Why: "Skip arms"},
+			{Rule: "OPTS.depth", Min: 1, Why: "UnmarshalInputToOptions"},
+			{Rule: "NIL.recv", Min: 500, Why: "11 read methods x message types"},
+		},
+		Explanation: "Guarded-macro typestate for decoders + Skip structure + depth/nil rules; see level text.",
+	})
+	reg(&Prop{
+		ID:        "C09",
+		Technique: "nil-dereference analysis on the typed syntax of every read accessor, getter, view method and codec closure (a dereference must be dominated by a nil test of the same variable); mutators must not return silently on read-only empties",
+		DesignRef: "DESIGN.md 3.8, 4 C09",
+		LevelText: "For every generated type: each read method of the fast-reflection type (Descriptor, Type, New, Interface, Range, Has, Get, WhichOneof, GetUnknown, IsValid, ProtoMethods), each plain getter, each read method of the list/map views and the size/marshal/unmarshal closures either never dereference the receiver / backing pointer / oneof wrapper or do so only under a nil test of that same variable (structured dominance); size of a nil message is 0 and marshal returns the input buffer (ENC/SIZE.frame); view mutators touch the backing store on every path and never return early on a nil backing pointer (writes into read-only empties panic rather than being dropped). Open findings: F7 (Has/Get/Range/WhichOneof/GetUnknown dereference a nil receiver), F8 (typed-nil oneof wrappers in Marshal/Get/Range). Not decided: behaviour of protojson/prototext/Clone/Merge on nil beyond the accessors they call (A3).",
+		Engines:      E{refl.RunNil, codec.RunEnc, codec.RunSize},
+		RulePrefixes: []string{"NIL", "ENC.nilwrap", "SIZE.nilwrap", "ENC.frame", "SIZE.frame", "ENC.walk", "SIZE.walk", "G.model", "G.anchor", "GEN.build"},
+		Floors: []core.Floor{
+			{Rule: "NIL.recv", Min: 500, Why: "11 read methods x message types"},
+			{Rule: "NIL.getter", Min: 400, Why: "getters"},
+			{Rule: "NIL.view", Min: 100, Why: "view read methods"},
+			{Rule: "NIL.mut", Min: 100, Why: "view mutators"},
+			{Rule: "ENC.frame", Min: 50, Why: "message types"},
+		},
+		Explanation: "Nil-dereference rules on accessors, getters, views and codec closures; see level text.",
 	})
 }
